@@ -451,6 +451,7 @@ def finish_check(spec, tier, base_seed, total, known, t0, stopped_early, planned
             key = (x["class"], x["site"])
             groups.setdefault(key, []).append((v, x))
     reported = []
+    shrunk_groups = 0
     for key, items in sorted(groups.items()):
         v, x = min(items, key=lambda it: len(it[0]["streams"]["plan"]) + len(it[0]["streams"]["sched"]))
         k = match_known(known, x)
@@ -459,7 +460,13 @@ def finish_check(spec, tier, base_seed, total, known, t0, stopped_early, planned
                          f"({len(items)} runs) {k.get('description', '')}")
             reported.append({"class": x["class"], "site": x["site"], "runs": len(items), "known": True})
             continue
-        best, used = shrink(spec, tier, v["seed"], v["streams"], x)
+        if shrunk_groups < 3:
+            best, used = shrink(spec, tier, v["seed"], v["streams"], x, budget_s=30.0)
+            shrunk_groups += 1
+        else:
+            # many different violation classes at once: the first three are minimised, the others are
+            # reported with the schedule as found (still an exact replay)
+            best, used = v["streams"], 0
         path, res = write_replay(spec, tier, v["seed"], best, x)
         if path is None:
             # shrunk form did not replay; fall back to the original streams
